@@ -12,7 +12,7 @@ res=()
 git apply --check $SRC/patch$K.diff || { echo "patch does not apply"; git -C /repo worktree remove --force $WT; exit 3; }
 # 1. demo passes without the patch
 cp $SRC/demo$K.rs tests/demo$K.rs
-cargo test --offline --test demo$K >$WT/demo_clean.log 2>&1; r_clean=$?
+cargo test --offline ${SEED_FEATURES:-} --test demo$K >$WT/demo_clean.log 2>&1; r_clean=$?
 # 2. with the patch: suite passes, demo fails
 git apply $SRC/patch$K.diff
 rm tests/demo$K.rs
@@ -20,7 +20,7 @@ cargo test --workspace --offline --no-fail-fast >$WT/suite.log 2>&1; r_suite=$?
 passed=$(grep -h "^test result" $WT/suite.log | awk '{s+=$4} END{print s}')
 failed=$(grep -h "^test result" $WT/suite.log | awk '{s+=$6} END{print s}')
 cp $SRC/demo$K.rs tests/demo$K.rs
-cargo test --offline --test demo$K >$WT/demo_patched.log 2>&1; r_patched=$?
+cargo test --offline ${SEED_FEATURES:-} --test demo$K >$WT/demo_patched.log 2>&1; r_patched=$?
 echo "$ID-$K: demo_clean rc=$r_clean suite rc=$r_suite passed=$passed failed=$failed demo_patched rc=$r_patched"
 if [ $r_clean -eq 0 ] && [ $r_suite -eq 0 ] && [ "$failed" = "0" ] && [ $r_patched -ne 0 ]; then
   mkdir -p $OUT
@@ -32,7 +32,7 @@ import json
 json.dump({"property":"$ID","seed":"$ID-$K","source":"independent sub-agent given only the property text and a scratch worktree",
  "needs_to_manifest": open("$SRC/notes$K.md").read()[:1500],
  "confirmed":{"demo_on_clean_tree":"pass (rc=$r_clean)","suite_with_patch":"pass: $passed passed, $failed failed (cargo test --workspace --offline --no-fail-fast)","demo_with_patch":"FAIL (rc=$r_patched)"},
- "commands":["git worktree add --detach $WT HEAD","cp demo.rs tests/demo$K.rs; cargo test --offline --test demo$K","git apply patch.diff; cargo test --workspace --offline --no-fail-fast","cargo test --offline --test demo$K"],
+ "commands":["git worktree add --detach $WT HEAD","cp demo.rs tests/demo$K.rs; cargo test --offline ${SEED_FEATURES:-} --test demo$K","git apply patch.diff; cargo test --workspace --offline --no-fail-fast","cargo test --offline ${SEED_FEATURES:-} --test demo$K"],
  "detected_by": None}, open("$OUT/meta.json","w"), indent=1)
 PY
   echo CONFIRMED
